@@ -24,6 +24,15 @@ FLAVOURS = {
         "arguments); (c) a defect that depends on the ORDER of otherwise independent statements or options; (d) an innocent-looking change of a "
         "regular expression, a grammar rule or a lookup table that shifts what is matched in a corner case. Keep it realistic and keep all 306 "
         "tests passing."),
+    6: ("This round, aim for one of these flavours. For the transpiler properties: (a) a change inside the BASIC09 runtime library "
+        "coco/resources/ecb.b09 (one of its ~55 procedures) or in how the transpiler passes arguments to it; (b) numeric edge semantics "
+        "(negative numbers, fractions, zero, values at 32767/32768/65535, very large or very small exponents, hex bounds); (c) a "
+        "table-driven slip: one entry of a keyword / function / statement table or one alternative of a grammar rule, so that only ONE "
+        "statement or function among its many siblings misbehaves; (d) a two-site change where a helper's contract changes and one "
+        "of its callers is not updated. For the image-decoder properties: (a) one specific pixel mode / picture type / header variant "
+        "among several; (b) colour arithmetic (palette bit order, rounding, component order); (c) option and argument handling (types, "
+        "defaults, stdin/stdout, file opening modes); (d) details of the written file format (PNM header fields, PNG chunks). Keep it "
+        "realistic and keep all 306 tests passing."),
 }
 
 
